@@ -150,24 +150,24 @@ def fromStr (text : List Nat) : Except FormatParseError (List Part) :=
 
 /-! ## field names -/
 
-def usizeMax : Nat := 18446744073709551615
+def isizeMax : Nat := 9223372036854775807
 
-/-- digits of `usize::from_str` (radix 10, overflow is an error). -/
-def parseDigits : Nat → List Nat → Option Nat
-  | acc, [] => some acc
+/-- the digit loop of `parse_index` (7cb5b4b; CPython's `get_integer`): ASCII digits are accumulated left
+    to right; a non-digit makes the text "not a number"; as soon as the digits read exceed
+    `isize::MAX` the whole field name is rejected (also when `checked_mul`/`checked_add` overflow:
+    that needs a value above `isize::MAX` already).  Before the fix this was `str::parse::<usize>`:
+    values up to 2^64-1 were indices, larger ones (and `+5`) keywords. -/
+def parseIndexGo : Nat → List Nat → Except FormatParseError (Option Nat)
+  | acc, [] => .ok (some acc)
   | acc, c :: rest =>
     if 48 ≤ c ∧ c ≤ 57 then
-      let v := acc * 10 + (c - 48)
-      if v > usizeMax then none else parseDigits v rest
-    else none
+      if acc * 10 + (c - 48) > isizeMax then .error invalidFormatSpecifier
+      else parseIndexGo (acc * 10 + (c - 48)) rest
+    else .ok none
 
-/-- `s.parse::<usize>()` (`Ok(n)` ↦ `some n`): empty text and a lone sign are errors, one leading
-    `+` is accepted, `-` is not a digit for an unsigned type. -/
-def parseUsize : List Nat → Option Nat
-  | [] => none
-  | [43] => none
-  | 43 :: rest => parseDigits 0 rest
-  | text => parseDigits 0 text
+/-- `parse_index(text)`: `some n` for an all-digit text, `none` for any other (and for the empty) text -/
+def parseIndex (text : List Nat) : Except FormatParseError (Option Nat) :=
+  if text = [] then .ok none else parseIndexGo 0 text
 
 /-- `chars.peeking_take_while(|ch| *ch != '.' && *ch != '[')`: the taken text and the iterator
     left behind. -/
@@ -183,9 +183,10 @@ def indexLoop : List Nat → List Nat → Except FormatParseError (Accessor × L
   | index, c :: rest =>
     if c = 93 then
       if index = [] then .error emptyAttribute
-      else match parseUsize index with
-        | some n => .ok (.index n, rest)
-        | none => .ok (.stringIndex index, rest)
+      else match parseIndex index with
+        | .error e => .error e
+        | .ok (some n) => .ok (.index n, rest)
+        | .ok none => .ok (.stringIndex index, rest)
     else indexLoop (index ++ [c]) rest
 
 /-- `FieldNamePart::parse_part(chars)`; `none` = iterator exhausted. -/
@@ -217,13 +218,17 @@ def partsLoop : Nat → List Nat → Except FormatParseError (List Accessor)
 def parseFieldName (text : List Nat) : Except FormatParseError (Head × List Accessor) :=
   let r := takeName text
   let first := r.1
-  let fieldType : Head :=
-    if first = [] then .auto
-    else match parseUsize first with
-      | some n => .index n
-      | none => .keyword first
-  match partsLoop (text.length + 1) r.2 with
+  let fieldType : Except FormatParseError Head :=
+    if first = [] then .ok .auto
+    else match parseIndex first with
+      | .error e => .error e
+      | .ok (some n) => .ok (.index n)
+      | .ok none => .ok (.keyword first)
+  match fieldType with
   | .error e => .error e
-  | .ok parts => .ok (fieldType, parts)
+  | .ok fieldType =>
+    match partsLoop (text.length + 1) r.2 with
+    | .error e => .error e
+    | .ok parts => .ok (fieldType, parts)
 
 end PV.C20.Model
